@@ -314,14 +314,14 @@ def rules_cascade(run):
 
 
 def check(run):
-    rules_atomic(run)
-    rules_coupdate(run)
-    rules_cascade(run)
+    run.guard(rules_atomic, run)
+    run.guard(rules_coupdate, run)
+    run.guard(rules_cascade, run)
     from .c12 import rules_registration
-    rules_registration(run, 'C16', '.4')
+    run.guard(rules_registration, run, 'C16', '.4')
     from .c17 import rules_rename
-    rules_rename(run, 'C16', ('.5', '.6'))
-    rules_caches(run, 'C16', '.7')
+    run.guard(rules_rename, run, 'C16', ('.5', '.6'))
+    run.guard(rules_caches, run, 'C16', '.7')
 
 
 STRUCT_FIELDS = {'_states', '_parent', '_children', '_transitions', 'name', 'description', '_preamble'}
